@@ -1219,3 +1219,106 @@ def plain(x):
     if isinstance(x, dict):
         return {k: plain(v) for k, v in x.items()}
     return x
+
+
+def conforms(prog: dict, t: dict, v, c: Optional[dict] = None, depth: int = 0) -> bool:
+    """Is the typed value v (canon) a value of t, constraints included?  (Used to keep generated
+    values inside the domain "value v of T" of the serialization properties.)"""
+    if depth > 40:
+        return True
+    k, tag = t["k"], v[0]
+    if k == "ann":
+        try:
+            return conforms(prog, t["of"], v, merge_constraints(t["c"], c), depth + 1)
+        except Unspecified:
+            return False
+    if k == "newtype":
+        nt = prog["newtypes"][t["i"]]
+        try:
+            return conforms(prog, nt["of"], v, merge_constraints(nt.get("c"), c), depth + 1)
+        except Unspecified:
+            return False
+    if k == "any":
+        return tag != "undef"
+    if k in ("opt", "union"):
+        return any(conforms(prog, a, v, c, depth + 1) for a in union_alts(t) if a["k"] not in ("unsup",))
+    if k == "undefined":
+        return tag == "undef"
+    if k == "none":
+        return tag == "none"
+    if k in ("bool", "int", "float", "str"):
+        if tag != k:
+            return False
+        try:
+            return not check_constraints(c, v[1])
+        except Unspecified:
+            return False
+    if k in ("list", "set", "frozenset", "vartuple"):
+        want = {"list": "list", "set": "set", "frozenset": "frozenset", "vartuple": "tuple"}[k]
+        if tag != want:
+            return False
+        if c:
+            if c.get("min_items") is not None and len(v[1]) < c["min_items"]:
+                return False
+            if c.get("max_items") is not None and len(v[1]) > c["max_items"]:
+                return False
+            if c.get("unique") and len({_sortkey(x) for x in v[1]}) != len(v[1]):
+                return False
+        return all(conforms(prog, t["of"], x, None, depth + 1) for x in v[1])
+    if k == "tuple":
+        if tag != "tuple":
+            return False
+        if c and c.get("unique") and len({_sortkey(x) for x in v[1]}) != len(v[1]):
+            return False
+        return tag == "tuple" and len(v[1]) == len(t["items"]) and all(conforms(prog, it, x, None, depth + 1) for it, x in zip(t["items"], v[1]))
+    if k == "map":
+        if tag != "dict":
+            return False
+        if c:
+            if c.get("min_props") is not None and len(v[1]) < c["min_props"]:
+                return False
+            if c.get("max_props") is not None and len(v[1]) > c["max_props"]:
+                return False
+        return all(conforms(prog, t["key"], kk, None, depth + 1) and conforms(prog, t["val"], vv, None, depth + 1) for kk, vv in v[1])
+    if k == "lit":
+        m = Model(prog)
+        return any(m.lit_value(x)[1] == v for x in t["values"])
+    if k == "enum":
+        return tag == "enum" and v[1] == prog["enums"][t["i"]]["name"]
+    if k == "cls":
+        cd = prog["classes"][t["i"]]
+        if t.get("args"):
+            cd = specialize(cd, t["args"])
+        if cd["flavor"] == "typeddict":
+            if tag != "tdict":
+                return False
+            vals = v[1]
+            for f in cd["fields"]:
+                if f["n"] in vals:
+                    if not conforms(prog, f["t"], vals[f["n"]], f.get("c"), depth + 1):
+                        return False
+                elif is_required(f, cd):
+                    return False
+            return True
+        if tag != "obj" or v[1] != cd["name"]:
+            return False
+        for f in cd["fields"]:
+            if f.get("kind") == "initvar" or f.get("from_initvar"):
+                continue
+            if f["n"] not in v[2]:
+                return False
+            fv = v[2][f["n"]]
+            if fv[0] == "undef":
+                if not any(a["k"] == "undefined" for a in (union_alts(f["t"]) if f["t"]["k"] in ("opt", "union") else [f["t"]])):
+                    return False
+                continue
+            if f.get("none_as_undefined") and fv[0] == "none":
+                continue
+            if not conforms(prog, f["t"], fv, f.get("c"), depth + 1):
+                return False
+            agg = f.get("agg")
+            if isinstance(agg, dict) and fv[0] == "dict":
+                if any(re.match(agg["pattern"], kk[1]) is None for kk, _ in fv[1]):
+                    return False
+        return True
+    return False
